@@ -42,6 +42,11 @@ func Suite(prop, tier string) []qx.SuiteItem {
 			Threads: [][]callSpec{{{Msgs: []msgSpec{m(0)}}}, {{Msgs: []msgSpec{m(0), m(0)}}}}, Faults: []string{"err:6", "lost"}}, b)
 		add(&WS{Name: "fine-async-1thr", BatchSize: 2, MaxAttempts: 2, Acks: kafka.RequireOne, WriterTopic: "A", Fine: true, Async: true,
 			Threads: [][]callSpec{{{Msgs: []msgSpec{m(0)}}, {Msgs: []msgSpec{m(0), m(0)}}}}, Faults: []string{"err:6", "lost"}}, b)
+		// several batches of one partition queued behind a slow or failing one (the queue holds more than two)
+		add(&WS{Name: "async-1thr-bs1-5batches", BatchSize: 1, MaxAttempts: 2, Acks: kafka.RequireOne, WriterTopic: "A", Async: true,
+			Threads: [][]callSpec{{{Msgs: []msgSpec{m(0), m(0), m(0), m(0), m(0)}}}}, Faults: []string{"err:6", "lost"}}, b-1)
+		add(&WS{Name: "sync-1call-bs1-4batches", BatchSize: 1, MaxAttempts: 2, Acks: kafka.RequireOne, WriterTopic: "A",
+			Threads: [][]callSpec{{{Msgs: []msgSpec{m(0), m(0), m(0), m(0)}}}}, Faults: []string{"err:6", "lost"}}, b-1)
 		items = append(items, qx.SuiteItem{Scn: transportScenario(prop, b), Bound: b})
 	case "C08":
 		// Message.totalSize of a message with 1-byte key and value "tXcYmZ|"+pad: 4+1+1+8+4+4 +1(hdr count) + 1 + (7+pad) = 31+pad
